@@ -70,10 +70,13 @@ def opLayout (j : Json) : Except String Json := do
     let stateIdx ← natsOrNilOfJson (fld j "stateIdx")
     let paramIdx ← natsOrNilOfJson (fld j "paramIdx")
     let q := paramIdx.length
-    -- "source" = the code as it is (sign / weight of the second-order term as repaired by fix 0f0d14a); "as_found" = before
+    -- "source" = the code as it is (sign / weight of the second-order term as repaired by fix 0f0d14a, `np.add.at` over
+    -- repeated observed states as repaired by fix 9e5845f); "as_found" = before both; "overwrite" = between the two
     let variant := (fld j "variant").getStr?.toOption.getD "source"
     if variant == "as_found" then
       pure (outMat q q (hessianAsFound nS nP ffs.length stateIdx paramIdx (← M "dl") FF (← M "JTJ")))
+    else if variant == "overwrite" then      -- before fix 9e5845f: buffered `E[stateIndex] += ...`
+      pure (outMat q q (hessianOverwrite nS nP ffs.length stateIdx paramIdx (← M "dl") (← M "w") FF (← M "JTJ")))
     else
       pure (outMat q q (hessian nS nP ffs.length stateIdx paramIdx (← M "dl") (← M "w") FF (← M "JTJ")))
   | f => .error s!"unknown layout function {f}"
